@@ -158,11 +158,32 @@ def run(F, rep, tier):
             rep.error('R16.2', 'missing ' + fn)
             continue
         b = F.body(fn)
-        trs = sorted({c.callee.get('tr') for c in b.calls if c.target.rsplit('::', 1)[-1] == 'fmt'})
-        if trs == ['std::fmt::' + tr] and len([c for c in b.calls if c.target.rsplit('::', 1)[-1] == 'fmt']) == 2:
-            rep.ok('R16.2', fn, 'both arms forward std::fmt::' + tr)
+        fcalls = [c for c in b.calls if c.target.rsplit('::', 1)[-1] == 'fmt']
+        trs = sorted({c.callee.get('tr') for c in fcalls})
+        selfs = sorted({(c.callee.get('g') or [''])[0] for c in fcalls})
+        if trs == ['std::fmt::' + tr] and any('i64' in x for x in selfs) and any('BigInt' in x for x in selfs):
+            rep.ok('R16.2', fn, 'every arm forwards std::fmt::' + tr)
         else:
-            rep.viol('R16.2', fn + '|forward', 'NInt %s forwards %s' % (tr, trs), b.loc(0))
+            rep.viol('R16.2', fn + '|forward', 'NInt %s forwards %s on %s' % (tr, trs, selfs), b.loc(0))
+        if tr != 'Display':
+            # a negative i64 formats as two's complement in hex/binary/octal, a BigInt as sign and magnitude:
+            # the machine-word formatter may only see non-negative values
+            for c in fcalls:
+                if 'i64' not in (c.callee.get('g') or [''])[0]:
+                    continue
+                guarded = False
+                for i in b.dominators()[c.bb]:
+                    for s_ in b.stmts(i):
+                        if s_[0] == 'a' and s_[2][0] == 'bin' and s_[2][1] in ('Lt', 'Ge') and s_[2][3][0] == 'k' and s_[2][3][2].startswith('0_'):
+                            for (sw, tt, ff) in bool_switches(b, s_[1][0]):
+                                nonneg = ff if s_[2][1] == 'Lt' else tt
+                                neg = tt if s_[2][1] == 'Lt' else ff
+                                if c.bb in b.reachable_from(nonneg, avoid={sw}) and c.bb not in b.reachable_from(neg, avoid={sw}):
+                                    guarded = True
+                if guarded:
+                    rep.ok('R16.2', fn + ' sign', 'i64 formatter reached only for non-negative values')
+                else:
+                    rep.viol('R16.2', fn + '|negative-word', 'a negative machine-word integer is formatted by <i64 as %s> (two\'s complement) while the same value in big representation prints sign and magnitude: the rendering depends on the representation' % tr, c.loc())
 
     # ---------------- R16.3
     rep.rule('R16.3', 'json_encode handles Null, Int (i64 else f64), other numbers (f64), String, Dict (object) and other sequences (array); '
